@@ -8,15 +8,17 @@ filter; proofs are by induction over the history.
 import Rpft.Lemmas.Index
 import Rpft.Props.C11
 import Rpft.Gen.Tables
+import Rpft.Canon
 set_option linter.unusedSimpArgs false
 set_option linter.unusedVariables false
 namespace Rpft.Props.C10
 open Rpft Rpft.Index
 
-/-- T1: row types (in dispatch order), the draft word and the index sheet name of the model are
-those of the source -/
+/-- T1: row types, the draft word and the index sheet name of the model are those of the source.
+The row types are the distinct constants of an equality dispatch — a set, compared up to order
+(which name goes with which kind is `kindOf_names`, and the tie decides what each kind does). -/
 theorem tables_agree :
-    Gen.indexRowTypes = rowTypeNames ∧ Gen.indexDraftWord = draftWord ∧
+    Canon.sameSet Gen.indexRowTypes rowTypeNames ∧ Gen.indexDraftWord = draftWord ∧
     Gen.indexSheetName = Index.indexSheetName := by decide
 
 /-- the `if/elif` chain of the model dispatches exactly on the tied names -/
